@@ -1,5 +1,6 @@
 """C02: decoding is total (no panic, no hang) on any byte input."""
 import panics
+import engine
 import dispatch
 
 META = {
@@ -41,8 +42,10 @@ def run(ctx, res):
     panics.rule_acyclic(prog, res, cl, "DEC")
     panics.rule_no_interior_mutability(prog, res)
     dec = dispatch.decode_table(prog, res, rule="E-map")
-    import fieldmodel
+    import fieldmodel, textrules
     fieldmodel.check_fields(prog, res, prop="C02")
+    textrules.rule_utf8_writers(prog, res)
+    textrules.rule_capacity(prog, engine.Filtered(res, {"X-cap", "X-utf8"}))
     panics.check_residue_support(inv, res)
     if ctx.tier == "thorough":
         import crosscfg
